@@ -285,7 +285,7 @@ def listVersions (w : World) (st : BState) (p : RegPkg) : BState × Option (List
 
 /-- the deprecation recorded for a selected version -/
 def depOf (vs : List VerInfo) (sel : VerInfo) : Option (Str × Str) :=
-  match vs.find? (fun v => v.rank = sel.rank) with
+  match vs.find? (fun v => v.ver = sel.ver) with
   | some v => v.deprecation
   | none => none
 
